@@ -1,4 +1,5 @@
 import Femio.Driver.Proto
+import Femio.Driver.C05
 import Femio.Driver.C07
 import Femio.Driver.C08
 import Femio.Driver.C13
@@ -6,7 +7,7 @@ import Femio.Driver.C13
 open Femio
 
 def handlers : List (List String → Option String) :=
-  [ C07.handle, C08D.handle, C13.handle ]
+  [ C05.handle, C07.handle, C08D.handle, C13.handle ]
 
 def handleLine (line : String) : String :=
   let toks := Proto.tokens line
